@@ -623,9 +623,13 @@ archive_acl_text_len(struct archive_acl *acl, int want_type, int flags,
 		} else
 			length += 3; /* rwx */
 
-		if ((ap->tag == ARCHIVE_ENTRY_ACL_USER ||
-		    ap->tag == ARCHIVE_ENTRY_ACL_GROUP) &&
-		    (flags & ARCHIVE_ENTRY_ACL_STYLE_EXTRA_ID) != 0) {
+		if (ap->tag == ARCHIVE_ENTRY_ACL_USER ||
+		    ap->tag == ARCHIVE_ENTRY_ACL_GROUP) {
+			/*
+			 * Reserve the ID field even without STYLE_EXTRA_ID:
+			 * an NFSv4 entry that has no name gets its ID appended
+			 * in any style.
+			 */
 			length += 1; /* colon */
 			/* ID digit count */
 			idlen = 1;
